@@ -171,6 +171,7 @@ def tlc_scenario_to_harness(js, sid, driver):
                     flags["dryRun"] = False
                     flags["dryRunOption"] = sp
                 flags["postRender"] = (h // 4) % 2 == 0
+                flags["cancelled"] = (h // 8) % 3 == 0
             s = {"op": m["kind"], "flags": flags, "proc": st.get("p", 1)}
             if m["chart"] != "none":
                 s["chart"] = m["chart"]
@@ -184,6 +185,10 @@ def tlc_scenario_to_harness(js, sid, driver):
             e = st["e"]
             if e["kind"] == "edit":
                 sc["steps"].append({"edit": {"res": e["res"], "field": e["field"], "value": e["value"]}})
+            elif e["kind"] == "oobnew":
+                sc["steps"].append({"oobnew": {"res": e["res"], "kind": kind_of_id(e["res"]), "own": e["value"], "f1": "q", "f2": "-"}})
+            elif e["kind"] == "oobunkeep":
+                sc["steps"].append({"oobunkeep": e["res"]})
             elif e["kind"] == "oobdel":
                 sc["steps"].append({"oobdel": e["res"]})
             else:
